@@ -98,6 +98,10 @@ Fixpoint hdel (k : bytes) (m : hmap) : hmap :=
 Definition is_lc (b : Z) : bool := (97 <=? b) && (b <=? 122).
 Definition is_uc (b : Z) : bool := (65 <=? b) && (b <=? 90).
 Definition is_digit (b : Z) : bool := (48 <=? b) && (b <=? 57).
+(** ASCII lower-casing (strings.ToLower / strings.EqualFold on ASCII header names; used by the
+    writers' model and by the proofs about canonicalisation) *)
+Definition lower_byte (b : Z) : Z := if is_uc b then b + 32 else b.
+Definition lower_bytes (s : bytes) : bytes := map lower_byte s.
 (** tchar of RFC 9110 5.6.2 = textproto.validHeaderFieldByte *)
 Definition is_tchar (b : Z) : bool :=
   is_lc b || is_uc b || is_digit b ||
@@ -275,7 +279,8 @@ Definition bad_trailer : list bytes := map bs
    "Content-Type"; "Expect"; "Host"; "Keep-Alive"; "Max-Forwards"; "Pragma"; "Proxy-Authenticate";
    "Proxy-Authorization"; "Proxy-Connection"; "Range"; "Realm"; "Te"; "Trailer"; "Transfer-Encoding";
    "Www-Authenticate"]%string.
-Definition has_prefix_if (s : bytes) : bool := match s with 73 :: 102 :: 45 :: _ => true | _ => false end.
+Definition has_prefix_if (s : bytes) : bool :=
+  match s with a :: b :: c :: _ => (a =? 73) && (b =? 102) && (c =? 45) | _ => false end.
 Definition valid_trailer (n : bytes) : bool :=
   let c := canon n in negb (has_prefix_if c) && negb (mem c bad_trailer).
 
